@@ -3,6 +3,6 @@
 # and runs the quick check of its own property against it (2 at a time); appends to seeded/CONFIRM.txt and seeded/RESULTS.txt
 cd /verif
 tmp=$(mktemp -d /tmp/seedbatch.XXXXXX)
-printf '%s\n' "$@" | xargs -P ${PAR:-2} -I{} sh -c 'id={}; p=${id%%-*}; tools/seedconfirm.sh seeded/$id > '$tmp'/$id.conf 2>&1; tools/seedtest.sh /verif/seeded/$id $p 2>&1 | cut -c1-400 > '$tmp'/$id.txt'
-for id in "$@"; do grep "^seeded/" $tmp/$id.conf >> seeded/CONFIRM.txt; cat $tmp/$id.txt >> seeded/RESULTS.txt; done
+printf '%s\n' "$@" | xargs -P ${PAR:-2} -I{} sh -c 'id={}; p=${id%%-*}; tools/seedconfirm.sh /verif/seeded/$id > '$tmp'/$id.conf 2>&1; tools/seedtest.sh /verif/seeded/$id $p 2>&1 | cut -c1-400 > '$tmp'/$id.txt'
+for id in "$@"; do grep "seeded/" $tmp/$id.conf | sed "s#^/verif/##" >> seeded/CONFIRM.txt; cat $tmp/$id.txt >> seeded/RESULTS.txt; done
 rm -rf $tmp
